@@ -16,6 +16,8 @@ from ural.quote import (
     safely_quote,
     safely_quote_qsl,
     upper_quoted,
+    SAFE_FOR_AUTH_ITEM,
+    SAFE_FOR_QUERY_ITEM,
 )
 from ural.ensure_protocol import ensure_protocol
 from ural.patterns import CONTROL_CHARS_RE
@@ -74,37 +76,39 @@ def canonicalize_url(
             path = "/"
 
     # Quotes
+    # NOTE: the quoted representation is the quoting of the unquoted one, so
+    # that both designate the same url and can be converted into one another
     if user:
+        user = safely_unquote_auth_item(user)
+
         if quoted:
-            user = safely_quote(user)
-        else:
-            user = safely_unquote_auth_item(user)
+            user = safely_quote(user, safe=SAFE_FOR_AUTH_ITEM)
 
     if password:
+        password = safely_unquote_auth_item(password)
+
         if quoted:
-            password = safely_quote(password)
-        else:
-            password = safely_unquote_auth_item(password)
+            password = safely_quote(password, safe=SAFE_FOR_AUTH_ITEM)
+
+    path = safely_unquote_path(path)
 
     if quoted:
         path = safely_quote(path)
-    else:
-        path = safely_unquote_path(path)
 
     qsl = safe_qsl_iter(query)
 
+    qsl = safely_unquote_qsl(qsl)
+
     if quoted:
-        qsl = safely_quote_qsl(qsl)
-    else:
-        qsl = safely_unquote_qsl(qsl)
+        qsl = safely_quote_qsl(qsl, safe=SAFE_FOR_QUERY_ITEM)
 
     query = safe_serialize_qsl(qsl)
 
     if fragment:
+        fragment = safely_unquote_fragment(fragment)
+
         if quoted:
             fragment = safely_quote(fragment)
-        else:
-            fragment = safely_unquote_fragment(fragment)
 
     # Repacking
     netloc = unsplit_netloc(user, password, hostname, port)
